@@ -78,7 +78,12 @@ func (c *Config) load(configPath string, isGlobal bool) error {
 				c.local[ident] = make(kv)
 			}
 		} else {
-			splitText := strings.Split(strings.Replace(text, "\t", "", -1), "=")
+			// value can contain '=', so split only at the first one
+			splitText := strings.SplitN(strings.Replace(text, "\t", "", -1), "=", 2)
+			// skip the line which is not 'key = value' or does not belong to any section
+			if len(splitText) != 2 || ident == "" {
+				continue
+			}
 			key := strings.TrimSpace(splitText[0])
 			value := strings.TrimSpace(splitText[1])
 			if isGlobal {
